@@ -5,4 +5,4 @@ GROUP = g09util.GROUP
 
 
 def run(ctx):
-    g09util.run_property(ctx, "C09", "c09", "C09.v", [])
+    g09util.run_property(ctx, "C09", "c09", "C09.v", [], stress=4000)
